@@ -1,20 +1,20 @@
 SPECIFICATION VSpec
 CONSTANTS
   Accts = {"A1"}
-  BankNames = {"KB1", "KB2", "KB3"}
+  BankNames = {"SB1", "SB2", "SB3"}
   Amounts = {1}
   Ticks = {1}
   LiqTriples <- NoTuples
   Prices <- NoTuples
   BkCases <- NoTuples
   MaxDepth = 4
-  KBanks = {"KB1", "KB2", "KB3"}
-  KAmounts = {0, 1, 3, 1000, 900001, 1255640255}
-  KBorrowed = {0, 5, 2000000}
+  KBanks <- NoBanks
+  KAmounts = {0}
+  KBorrowed <- NoTuples
   KMaxDepth = 4
-  SBanks <- NoBanks
-  SAmounts = {0}
-  SBorrowed <- NoTuples
+  SBanks <- SBankSet
+  SAmounts = {0, 1, 3, 1000, 900001, 1255640255}
+  SBorrowed = {0, 5, 2000000}
   DBanks <- NoBanks
   DAmounts = {0}
   DCums <- NoTuples
